@@ -51,12 +51,34 @@ struct ChanView {
 	mon_id: u64,
 	mon: [u64; 3], // holder, cp, min seen secret
 	pending: Vec<u64>,
+	/// previous hops (channel index, htlc id) of the outbound HTLCs this channel's monitor lists (forwarded HTLCs)
+	prev_hops: Vec<(usize, u64)>,
 }
 impl ChanView {
 	/// every update through this id has been reported complete
 	fn durable(&self) -> u64 { self.pending.iter().min().map(|m| m - 1).unwrap_or(self.mon_id) }
 }
-struct Point { mgr: Vec<u8>, mons: Vec<Vec<u8>>, views: Vec<ChanView>, trace_len: usize, n_pays: usize, op: String }
+/// `queued_fwd` / `queued_dec`: previous hops (channel index, htlc id) of the AddHTLC entries in the manager's forward_htlcs /
+/// pending_intercepted_htlcs, resp. of the update_adds still in decode_update_add_htlcs (committed inbound, not yet forwarded)
+struct Point { mgr: Vec<u8>, mons: Vec<Vec<u8>>, views: Vec<ChanView>, trace_len: usize, n_pays: usize, op: String, queued_fwd: Vec<(usize, u64)>, queued_dec: Vec<(usize, u64)> }
+
+/// (queued forwards, awaiting decode) of node i's live manager, from the persisted-state dump (hook of C12)
+fn queued_of(net: &Net, i: usize) -> (Vec<(usize, u64)>, Vec<(usize, u64)>) {
+	let names: Vec<String> = net.chans.iter().map(|c| format!("{}", c.2)).collect();
+	let find = |hexid: &str| names.iter().position(|n| n == hexid).unwrap_or(usize::MAX);
+	let (mut f, mut d) = (vec![], vec![]);
+	for line in vh::manager_persisted_state_dump(net.nodes[i].node) {
+		if (line.starts_with("forward ") && line.contains(" add prev=")) || line.starts_with("intercepted ") {
+			if let Some(rest) = line.split("prev=").nth(1) { let tok = rest.split(' ').next().unwrap_or(""); let mut it = tok.split(':'); if let (Some(c), Some(id)) = (it.next(), it.next()) { f.push((find(c), id.parse().unwrap_or(u64::MAX))); } }
+		} else if line.starts_with("decode_update_add ") {
+			let c = line.split(" chan=").nth(1).and_then(|r| r.split(' ').next()).unwrap_or("");
+			let id = line.split(" htlc_id=").nth(1).and_then(|r| r.split(' ').next()).and_then(|x| x.parse().ok()).unwrap_or(u64::MAX);
+			d.push((find(c), id));
+		}
+	}
+	f.sort(); d.sort();
+	(f, d)
+}
 
 /// channels (indices into net.chans) of node t, with the peer
 fn chans_of(net: &Net, t: usize) -> Vec<(usize, usize, ChannelId)> {
@@ -76,12 +98,21 @@ fn take_point(net: &Net, t: usize, op: String) -> Point {
 			mon_id: m.get_latest_update_id(),
 			mon: vh::monitor_restart_numbers(&m),
 			pending: net.pending_updates(t, ci),
+			prev_hops: vh::monitor_outbound_htlc_prev_hops(&m).into_iter().map(|(c, id)| (net.chan_idx(&c), id)).collect(),
 		});
 	}
-	Point { mgr, mons, views, trace_len: net.trace.len(), n_pays: net.pays.len(), op }
+	let (queued_fwd, queued_dec) = queued_of(net, t);
+	Point { mgr, mons, views, trace_len: net.trace.len(), n_pays: net.pays.len(), op, queued_fwd, queued_dec }
 }
 
-const ROUTES: [(&[usize], &[usize]); 6] = [(&[0, 1, 2], &[0, 1]), (&[2, 1, 0], &[1, 0]), (&[0, 1], &[0]), (&[1, 2], &[1]), (&[1, 0], &[0]), (&[2, 1], &[1])];
+/// topology 0: line 0 -c0- 1 -c1- 2.   topology 1: "Y" 0 -c0- 2, 1 -c1- 2, 2 -c2- 3 (two inbound channels into node 2,
+/// whose HTLC ids both count from 0 and therefore collide).  The first `main` routes are the multi-hop ones.
+const ROUTES0: [(&[usize], &[usize]); 6] = [(&[0, 1, 2], &[0, 1]), (&[2, 1, 0], &[1, 0]), (&[0, 1], &[0]), (&[1, 2], &[1]), (&[1, 0], &[0]), (&[2, 1], &[1])];
+const ROUTES1: [(&[usize], &[usize]); 12] = [(&[0, 2, 3], &[0, 2]), (&[1, 2, 3], &[1, 2]), (&[3, 2, 0], &[2, 0]), (&[3, 2, 1], &[2, 1]), (&[0, 2, 1], &[0, 1]), (&[1, 2, 0], &[1, 0]),
+	(&[2, 3], &[2]), (&[0, 2], &[0]), (&[1, 2], &[1]), (&[3, 2], &[2]), (&[2, 0], &[0]), (&[2, 1], &[1])];
+fn routes(topo: usize) -> (&'static [(&'static [usize], &'static [usize])], u64) { if topo == 0 { (&ROUTES0, 2) } else { (&ROUTES1, 4) } }
+/// the node whose Σ value_to_self must not decrease
+fn fwd_node(topo: usize) -> usize { if topo == 0 { 1 } else { 2 } }
 
 fn top_up(net: &Net, t: usize) {
 	if net.in_progress[t] {
@@ -90,29 +121,82 @@ fn top_up(net: &Net, t: usize) {
 	}
 }
 
-/// Deterministic in (seed, t, async_t): the scenario up to `upto` points after point 0.
-fn run_scenario(seed: u64, t: usize, async_t: bool, n_ops: usize, upto: usize) -> (Net, Vec<Point>, Option<u64>, Vec<(usize, bool)>) {
-	let mut decided: Vec<(usize, bool)> = vec![]; // the application's claim (true) / fail-back (false) decisions, to be retried after a restart
+struct Scen { net: Net, pts: Vec<Point>, start_bal: Option<u64>, decided: Vec<(usize, bool)>, t: usize, upto: usize }
+impl Scen {
+	fn full(&self) -> bool { self.pts.len() > self.upto }
+	fn point(&mut self, op: String) { if !self.full() { let p = take_point(&self.net, self.t, op); self.pts.push(p); } }
+	/// complete every pending monitor update of t (one point each), then deliver / forward until quiet; `only`: restrict
+	/// deliveries to messages between these two nodes and do not forward; events are not processed (nothing becomes claimable)
+	fn drain(&mut self, only: Option<(usize, usize)>, forward: bool) {
+		let t = self.t;
+		for _ in 0..80 {
+			if self.full() { return; }
+			top_up(&self.net, t);
+			let pend: Vec<(usize, u64)> = chans_of(&self.net, t).iter().flat_map(|c| self.net.pending_updates(t, c.0).into_iter().map(move |id| (c.0, id))).collect();
+			if let Some((c, id)) = pend.first() { self.net.complete(t, *c, *id); self.point(format!("complete c{} {}", c, id)); continue; }
+			let q: Vec<(usize, usize)> = self.net.q.iter().filter(|(k, v)| !v.is_empty() && only.map(|(a, b)| (k.0 == a && k.1 == b) || (k.0 == b && k.1 == a)).unwrap_or(true)).map(|(k, _)| *k).collect();
+			if let Some((i, j)) = q.first() { let k = self.net.deliver(*i, *j).unwrap_or("-"); self.point(format!("deliver {}>{} {}", i, j, k)); continue; }
+			if forward { if let Some(i) = (0..self.net.nodes.len()).find(|i| self.net.nodes[*i].node.needs_pending_htlc_processing()) { self.net.forward(i); self.point(format!("fwd {}", i)); continue; } }
+			return;
+		}
+	}
+}
+
+/// Deterministic in its arguments: the scenario up to `upto` points after point 0.
+/// `flavor` (topology 1, t = 2): 0 = random schedule only; 1 / 2 = a scripted prefix that drives the two inbound channels in
+/// lock-step — HTLC (c0, id 0) is forwarded over c2 and left pending, HTLC (c1, id 0) is committed and decoded into the to-forward
+/// queue of node 2 but not forwarded — and then (1) node 2 sends a payment of its own over c2 (c2's monitor advances, a manager
+/// written before is stale for c2 only), or (2) had force-closed c2 before the second HTLC arrived; then the random schedule.
+fn run_scenario(seed: u64, topo: usize, flavor: u64, t: usize, async_t: bool, n_ops: usize, upto: usize) -> (Net, Vec<Point>, Option<u64>, Vec<(usize, bool)>) {
 	let mut rng = Rng::new(seed);
-	let mut net = Net::new(3, vec![None, None, None]);
-	let c0 = net.open(0, 1, 1_000_000, 400_000_000);
-	let c1 = net.open(1, 2, 1_000_000, 400_000_000);
-	let _ = (c0, c1);
+	let n = if topo == 0 { 3 } else { 4 };
+	let mut net = Net::new(n, (0..n).map(|_| None).collect());
+	if topo == 0 { net.open(0, 1, 1_000_000, 400_000_000); net.open(1, 2, 1_000_000, 400_000_000); }
+	else { net.open(0, 2, 1_000_000, 400_000_000); net.open(1, 2, 1_000_000, 400_000_000); net.open(2, 3, 1_000_000, 400_000_000); }
 	if async_t { net.set_mode(t, true); }
-	let start_bal1 = sum_value_to_self(&net, 1);
-	let mut pts = vec![take_point(&net, t, "start".into())];
-	let my_chans: Vec<usize> = chans_of(&net, t).iter().map(|c| c.0).collect();
-	let max_pays = 2 + rng.below(5) as usize;
+	let start_bal = sum_value_to_self(&net, fwd_node(topo));
+	let p0 = take_point(&net, t, "start".into());
+	let mut sc = Scen { net, pts: vec![p0], start_bal, decided: vec![], t, upto };
+	let my_chans: Vec<usize> = chans_of(&sc.net, t).iter().map(|c| c.0).collect();
+	let max_pays = 2 + rng.below(5) as usize + if flavor > 0 { 2 } else { 0 };
+	let mut force_closed = false;
+	if topo == 1 && flavor > 0 && t == 2 {
+		let amt = 1_000_000 + rng.below(20_000_000);
+		if let Ok(p) = sc.net.send(&[0, 2, 3], &[0, 2], amt, 70) { sc.point(format!("send#{} [0, 2, 3] {}", p, amt)); }
+		sc.drain(None, true);
+		if flavor == 2 && !sc.full() {
+			let (_, peer, cid) = chans_of(&sc.net, t)[2];
+			let _ = sc.net.nodes[t].node.force_close_broadcasting_latest_txn(&cid, &sc.net.ids[peer], "closed by the application".to_string());
+			sc.net.pump(t); sc.net.process_events(t); force_closed = true;
+			sc.point("force-close c2".into());
+			sc.drain(Some((2, 3)), false);
+		}
+		if !sc.full() {
+			let amt = 1_000_000 + rng.below(20_000_000);
+			if let Ok(p) = sc.net.send(&[1, 2, 3], &[1, 2], amt, 70) { sc.point(format!("send#{} [1, 2, 3] {}", p, amt)); }
+			sc.drain(Some((1, 2)), false);
+		}
+		if !sc.full() { sc.net.nodes[t].node.test_process_pending_update_add_htlcs(); sc.net.pump(t); sc.point(format!("decode {}", t)); }
+		if flavor == 1 && !sc.full() {
+			if let Ok(p) = sc.net.send(&[2, 3], &[2], 100_000 + rng.below(5_000_000), 70) { sc.point(format!("send#{} [2, 3]", p)); }
+			let pend = sc.net.pending_updates(t, 2);
+			for id in pend { if !sc.full() { sc.net.complete(t, 2, id); sc.point(format!("complete c2 {}", id)); } }
+		}
+	}
+	let (rts, n_main) = routes(topo);
 	for _ in 0..n_ops {
-		if pts.len() > upto { break; }
-		top_up(&net, t);
+		if sc.full() { break; }
+		let net = &mut sc.net;
+		top_up(net, t);
 		// weighted choice among the actions that can currently make progress
 		let queues: Vec<(usize, usize)> = net.q.iter().filter(|(_, v)| !v.is_empty()).map(|(k, _)| *k).collect();
-		let fwd: Vec<usize> = (0..3).filter(|i| net.nodes[*i].node.needs_pending_htlc_processing()).collect();
+		let fwd: Vec<usize> = (0..n).filter(|i| net.nodes[*i].node.needs_pending_htlc_processing()).collect();
 		let cands: Vec<usize> = (0..net.pays.len()).filter(|p| net.claimable[net.pays[*p].to].iter().any(|c| c.0 == net.pays[*p].hash)).collect();
 		let pend: Vec<(usize, u64)> = my_chans.iter().flat_map(|c| net.pending_updates(t, *c).into_iter().map(move |id| (*c, id))).collect();
+		let can_fc = topo == 1 && !force_closed && net.pays.len() >= 2;
 		let mut acts: Vec<(u64, u8)> = vec![(if net.pays.len() < max_pays { 3 } else { 0 }, 0), (if queues.is_empty() { 0 } else { 9 }, 1), (if fwd.is_empty() { 0 } else { 4 }, 2), (2, 3),
-			(if cands.is_empty() { 0 } else { 4 }, 4), (if pend.is_empty() { 0 } else { 4 }, 5), (if pend.is_empty() { 0 } else { 1 }, 6)];
+			(if cands.is_empty() { 0 } else { 4 }, 4), (if pend.is_empty() { 0 } else { 4 }, 5), (if pend.is_empty() { 0 } else { 1 }, 6),
+			(if fwd.contains(&t) { 3 } else { 0 }, 7), (if can_fc { 1 } else { 0 }, 8)];
 		acts.retain(|a| a.0 > 0);
 		let total: u64 = acts.iter().map(|a| a.0).sum();
 		let mut r = rng.below(total);
@@ -120,31 +204,40 @@ fn run_scenario(seed: u64, t: usize, async_t: bool, n_ops: usize, upto: usize) -
 		for a in &acts { if r < a.0 { which = a.1; break; } r -= a.0; }
 		let op = match which {
 			0 => {
-				let nr = if rng.chance(2, 3) { 2 } else { 6 };
-				let (pn, pc) = ROUTES[rng.below(nr) as usize];
+				let nr = if rng.chance(2, 3) { n_main } else { rts.len() as u64 };
+				let (pn, pc) = rts[rng.below(nr) as usize];
 				let amt = match rng.below(6) { 0 => 100_000 + rng.below(200_000), 1 => 1_000_000, _ => 1_000_000 + rng.below(40_000_000) };
 				match net.send(pn, pc, amt, 70) { Ok(p) => format!("send#{} {:?} {}", p, pn, amt), Err(e) => format!("send-refused {}", e) }
 			},
 			1 => { let (i, j) = *rng.pick(&queues); let k = net.deliver(i, j).unwrap_or("-"); format!("deliver {}>{} {}", i, j, k) },
 			2 => { let i = *rng.pick(&fwd); net.forward(i); format!("fwd {}", i) },
-			3 => { let i = rng.below(3) as usize; net.process_events(i); format!("events {}", i) },
+			3 => { let i = rng.below(n as u64) as usize; net.process_events(i); format!("events {}", i) },
 			4 => {
 				let p = *rng.pick(&cands);
 				let to = net.pays[p].to; let h = net.pays[p].hash;
 				net.claimable[to].retain(|c| c.0 != h);
-				if rng.chance(4, 5) { decided.push((p, true)); net.claim(p); format!("claim#{}", p) } else { decided.push((p, false)); net.fail_back(p); format!("failback#{}", p) }
+				if rng.chance(4, 5) { sc.decided.push((p, true)); net.claim(p); format!("claim#{}", p) } else { sc.decided.push((p, false)); net.fail_back(p); format!("failback#{}", p) }
 			},
 			5 => { let (c, id) = *rng.pick(&pend); net.complete(t, c, id); format!("complete c{} {}", c, id) },
-			_ => {
+			6 => {
 				let c = rng.pick(&pend).0;
 				let p = net.pending_updates(t, c);
 				for id in &p { net.complete(t, c, *id); }
 				format!("complete-all c{} {:?}", c, p)
 			},
+			7 => { net.nodes[t].node.test_process_pending_update_add_htlcs(); net.pump(t); format!("decode {}", t) },
+			_ => {
+				// the application force-closes one of t's channels
+				let cs = chans_of(net, t);
+				let (ci, peer, cid) = cs[rng.below(cs.len() as u64) as usize];
+				let _ = net.nodes[t].node.force_close_broadcasting_latest_txn(&cid, &net.ids[peer], "closed by the application".to_string());
+				net.pump(t); net.process_events(t); force_closed = true;
+				format!("force-close c{}", ci)
+			},
 		};
-		pts.push(take_point(&net, t, op));
+		sc.point(op);
 	}
-	(net, pts, start_bal1, decided)
+	(sc.net, sc.pts, sc.start_bal, sc.decided)
 }
 
 fn csv(v: &[u64]) -> String { if v.is_empty() { "-".into() } else { v.iter().map(|x| x.to_string()).collect::<Vec<_>>().join(",") } }
@@ -179,10 +272,10 @@ fn observe_restart(net: &mut Net, t: usize, mgr: &[u8], mons: &[Vec<u8>], unbloc
 	}
 }
 
-fn seen_line(s: &Seen) -> String {
+fn seen_line(s: &Seen, open_q: &[usize]) -> String {
 	match s {
 		Seen::Err(e) => if e.contains("DangerousValue") { "err".to_string() } else { format!("panic {}", e.replace('\n', " ").chars().take(120).collect::<String>()) },
-		Seen::Ok(v) => format!("ok {}", v.iter().map(|(closed, replay, cid)| if *closed { format!("closed:{}:{}", csv(replay), cid.map(|x| x.to_string()).unwrap_or("none".into())) } else { format!("resumed:{}", csv(replay)) }).collect::<Vec<_>>().join(" ")),
+		Seen::Ok(v) => format!("ok {}", open_q.iter().map(|k| &v[*k]).map(|(closed, replay, cid)| if *closed { format!("closed:{}:{}", csv(replay), cid.map(|x| x.to_string()).unwrap_or("none".into())) } else { format!("resumed:{}", csv(replay)) }).collect::<Vec<_>>().join(" ")),
 	}
 }
 
@@ -192,7 +285,7 @@ fn sum_value_to_self(net: &Net, n: usize) -> Option<u64> {
 	Some(s)
 }
 
-struct World { p: usize, q: usize, mon_pts: Vec<usize>, admissible: bool }
+struct World { p: usize, q: usize, mon_pts: Vec<usize>, admissible: bool, rebuild: bool }
 
 fn main() {
 	let args = &parse_args("c10");
@@ -200,21 +293,25 @@ fn main() {
 	let mut rec = Rec::new(&args.out, &args.model);
 	let mut rng = Rng::new(args.seed);
 	let trace_on = std::env::var("VERIF_TRACE").is_ok();
-	let n_scen = if args.thorough { 20 } else { 10 } * args.scale as usize;
+	let n_scen = if args.thorough { 22 } else { 11 } * args.scale as usize;
 	let worlds_per_scen = if args.thorough { 200 } else { 70 }; // a leaked Net per world: memory bounds the thorough tier
 	let mut n_worlds = 0u64; let mut n_adm = 0u64; let mut n_closed = 0u64; let mut n_replay = 0u64; let mut n_second = 0u64; let mut n_settled = 0u64;
 	let mut nondet = 0u64; let mut late_panics = 0u64;
 	for sc in 0..n_scen {
 		let seed = rng.next();
-		let t = match sc % 4 { 0 | 1 => 1, 2 => 0, _ => 2 };
+		// even scenarios: line of 3 nodes; odd scenarios: 4 nodes, two inbound channels into node 2 (colliding HTLC ids)
+		let topo = sc % 2;
+		let t = if topo == 0 { match (sc / 2) % 4 { 0 | 1 => 1, 2 => 0, _ => 2 } } else if (sc / 2) % 5 == 4 { 0 } else { 2 };
+		let flavor = if topo == 1 && t == 2 { [1u64, 2, 0, 1, 2][(sc / 2) % 5] } else { 0 };
 		let async_t = sc % 5 != 4;
+		let nn = if topo == 0 { 3 } else { 4 };
 		let n_ops = if args.thorough { 50 + rng.below(90) as usize } else { 40 + rng.below(50) as usize };
 		// ---- reference run: all points, run-model tracking ops ------------------------------------
-		let (net, pts, start_bal1, _) = match guarded(AssertUnwindSafe(|| run_scenario(seed, t, async_t, n_ops, usize::MAX))) {
+		let (net, pts, start_bal1, _) = match guarded(AssertUnwindSafe(|| run_scenario(seed, topo, flavor, t, async_t, n_ops, usize::MAX))) {
 			Ok(x) => x,
 			Err(p) => { rec.oracle_fail(format!("scenario {} (seed {}) panicked in honest operation: {}", sc, seed, p.chars().take(200).collect::<String>())); continue; },
 		};
-		if trace_on { eprintln!("=== scenario {} seed {} t={} async={} points={}", sc, seed, t, async_t, pts.len()); for (k, p) in pts.iter().enumerate() { eprintln!("  pt{} {} {:?}", k, p.op, p.views); } }
+		if trace_on { eprintln!("=== scenario {} seed {} topo={} flavor={} t={} async={} points={}", sc, seed, topo, flavor, t, async_t, pts.len()); for (k, p) in pts.iter().enumerate() { eprintln!("  pt{} {} fwd={:?} dec={:?} {:?}", k, p.op, p.queued_fwd, p.queued_dec, p.views); } }
 		if std::env::var("VERIF_TRACE").map(|v| v == "3").unwrap_or(false) { let mut pi = 0; for (k, o) in net.trace.iter().enumerate() { while pi < pts.len() && pts[pi].trace_len <= k { eprintln!("   -- pt{} {}", pi, pts[pi].op); pi += 1; } if !matches!(o, Obs::Balance { .. }) { eprintln!("      {}", fmt_obs(o)); } } }
 		let my = chans_of(&net, t);
 		// points of the reference run at which a preimage-only update was handed to chain::Watch under an id the channel had
@@ -237,18 +334,18 @@ fn main() {
 				per_chan.push(seen.into_iter().map(|(id, pp)| (pp, id)).collect());
 			}
 			for q in 0..=p {
-				if pts[q].views.iter().any(|v| v.chan.is_none()) { continue; }
-				// admissible monitor choices: id ≥ durable prefix at p
-				let adm: Vec<Vec<usize>> = (0..my.len()).map(|k| per_chan[k].iter().filter(|(_, id)| *id >= pts[p].views[k].durable()).map(|(pp, _)| *pp).collect()).collect();
+				if pts[q].views.iter().all(|v| v.chan.is_none()) { continue; }
+				// admissible monitor choices: id ≥ durable prefix at p (a channel the manager of q no longer has: its latest monitor)
+				let adm: Vec<Vec<usize>> = (0..my.len()).map(|k| if pts[q].views[k].chan.is_none() { vec![p] } else { per_chan[k].iter().filter(|(_, id)| *id >= pts[p].views[k].durable()).map(|(pp, _)| *pp).collect() }).collect();
 				let mut combos: Vec<Vec<usize>> = vec![vec![]];
 				for k in 0..my.len() { let mut n = vec![]; for c in &combos { for x in &adm[k] { let mut c2 = c.clone(); c2.push(*x); n.push(c2); } } combos = n; }
-				for c in combos { worlds.push(World { p, q, mon_pts: c, admissible: true }); }
+				for c in combos { worlds.push(World { p, q, mon_pts: c, admissible: true, rebuild: (p * 3 + q) % 4 == 0 }); }
 				// one inadmissible world: some monitor older than what was reported complete
-				let stale: Vec<(usize, usize)> = (0..my.len()).flat_map(|k| per_chan[k].iter().filter(|(_, id)| *id < pts[p].views[k].durable()).map(move |(pp, _)| (k, *pp)).collect::<Vec<_>>()).collect();
+				let stale: Vec<(usize, usize)> = (0..my.len()).filter(|k| pts[q].views[*k].chan.is_some()).flat_map(|k| per_chan[k].iter().filter(|(_, id)| *id < pts[p].views[k].durable()).map(move |(pp, _)| (k, *pp)).collect::<Vec<_>>()).collect();
 				if !stale.is_empty() && (q + p) % 3 == 0 {
 					let (k, pp) = stale[(p * 7 + q) % stale.len()];
 					let mut c: Vec<usize> = (0..my.len()).map(|_| p).collect(); c[k] = pp;
-					worlds.push(World { p, q, mon_pts: c, admissible: false });
+					worlds.push(World { p, q, mon_pts: c, admissible: false, rebuild: false });
 				}
 			}
 		}
@@ -257,16 +354,25 @@ fn main() {
 		let mut wrng = Rng::new(seed ^ 0xC10);
 		for i in (1..worlds.len()).rev() { let j = wrng.below(i as u64 + 1) as usize; worlds.swap(i, j); }
 		if std::env::var("VERIF_C10_WORLD").is_err() {
-			let key = |w: &World| -> String { let mut k = String::new(); for c in 0..my.len() { let v = &pts[w.q].views[c]; let m = &pts[w.mon_pts[c]].views[c]; k.push_str(&format!("{:?}/{:?}/{}|", v.chan, v.inflight, m.mon_id)); } k };
-			let bucket = |w: &World| -> usize { if !w.admissible { 3 } else if (0..my.len()).any(|c| pts[w.q].views[c].chan.unwrap()[0] < pts[w.mon_pts[c]].views[c].mon_id) { 2 } else if w.q == w.p { 0 } else { 1 } };
-			let quota = [worlds_per_scen * 3 / 10, worlds_per_scen * 3 / 10, worlds_per_scen * 2 / 10, worlds_per_scen * 2 / 10];
-			let mut taken = [0usize; 4];
+			let key = |w: &World| -> String { let mut k = format!("{:?}{:?}", pts[w.q].queued_fwd, pts[w.q].queued_dec); for c in 0..my.len() { let v = &pts[w.q].views[c]; let m = &pts[w.mon_pts[c]].views[c]; k.push_str(&format!("{:?}/{:?}/{}|", v.chan, v.inflight, m.mon_id)); } k };
+			// closed at load: the manager of q no longer has the channel, or its copy is older than the monitor copy
+			let closed_at_load = |w: &World, c: usize| -> bool { match pts[w.q].views[c].chan { None => true, Some(x) => x[0] < pts[w.mon_pts[c]].views[c].mon_id } };
+			// bucket 4 (directed): forwards are QUEUED in the manager copy for an inbound channel that stays open, and some other
+			// channel is closed at load time (the reconciliation of queued forwards with closed channels' monitors is exercised)
+			let bucket = |w: &World| -> usize {
+				if !w.admissible { return 3; }
+				let queued_open = pts[w.q].queued_fwd.iter().chain(pts[w.q].queued_dec.iter()).any(|(ci, _)| my.iter().position(|m| m.0 == *ci).map(|k| !closed_at_load(w, k)).unwrap_or(false));
+				if queued_open && (0..my.len()).any(|c| closed_at_load(w, c)) { 4 }
+				else if (0..my.len()).any(|c| closed_at_load(w, c)) { 2 } else if w.q == w.p { 0 } else { 1 }
+			};
+			let quota = [worlds_per_scen * 5 / 20, worlds_per_scen * 5 / 20, worlds_per_scen * 3 / 20, worlds_per_scen * 3 / 20, worlds_per_scen * 4 / 20];
+			let mut taken = [0usize; 5];
 			let mut per_key: BTreeMap<String, usize> = BTreeMap::new();
 			let mut keep = vec![]; let mut rest = vec![];
 			for w in worlds.drain(..) {
 				let b = bucket(&w); let k = key(&w);
 				let n = per_key.entry(k).or_insert(0);
-				if taken[b] < quota[b] && *n < 2 { taken[b] += 1; *n += 1; keep.push(w); } else { rest.push(w); }
+				if taken[b] < quota[b] && *n < (if b == 4 { 4 } else { 2 }) { taken[b] += 1; *n += 1; keep.push(w); } else { rest.push(w); }
 			}
 			for w in rest { if keep.len() >= worlds_per_scen { break; } keep.push(w); }
 			worlds = keep;
@@ -275,25 +381,29 @@ fn main() {
 		for w in &worlds {
 			if let Some(o) = &only { if *o != format!("{}:{}:{}:{}", sc, w.p, w.q, w.mon_pts.iter().map(|x| x.to_string()).collect::<Vec<_>>().join("-")) { continue; } }
 			n_worlds += 1;
-			let tag = format!("scenario {} seed {} t={} async={} world(p={} [{}], manager of q={}, monitors of {:?}{})", sc, seed, t, async_t, w.p, pts[w.p].op, w.q, w.mon_pts, if w.admissible { "" } else { ", INADMISSIBLE: a monitor older than an update reported complete" });
-			let r = guarded(AssertUnwindSafe(|| run_scenario(seed, t, async_t, n_ops, w.p)));
+			let tag = format!("scenario {} seed {} topo={} flavor={} t={} async={} world(p={} [{}], manager of q={}, monitors of {:?}{}{})", sc, seed, topo, flavor, t, async_t, w.p, pts[w.p].op, w.q, w.mon_pts, if w.rebuild { ", reload path reconstruct_manager_from_monitors" } else { "" }, if w.admissible { "" } else { ", INADMISSIBLE: a monitor older than an update reported complete" });
+			let r = guarded(AssertUnwindSafe(|| run_scenario(seed, topo, flavor, t, async_t, n_ops, w.p)));
 			let (mut net, wpts, _, decided) = match r { Ok(x) => x, Err(e) => { rec.oracle_fail(format!("{}: re-run panicked: {}", tag, e.chars().take(160).collect::<String>())); continue; } };
 			// the re-run must have reached the same durable points (hash-map iteration order may differ between runs)
-			if wpts.len() != w.p + 1 || (0..=w.p).any(|k| wpts[k].views != pts[k].views) { nondet += 1; rec.discarded += 1; std::mem::forget(net); continue; }
+			if wpts.len() != w.p + 1 || (0..=w.p).any(|k| wpts[k].views != pts[k].views || wpts[k].queued_fwd != pts[k].queued_fwd || wpts[k].queued_dec != pts[k].queued_dec) { nondet += 1; rec.discarded += 1; std::mem::forget(net); continue; }
 			let mgr = &wpts[w.q].mgr;
 			let mons: Vec<Vec<u8>> = (0..my.len()).map(|k| wpts[w.mon_pts[k]].mons[k].clone()).collect();
 			let qv = &wpts[w.q].views;
 			let mv: Vec<&ChanView> = (0..my.len()).map(|k| &wpts[w.mon_pts[k]].views[k]).collect();
-			let mut op = format!("reload {}", my.len());
-			for k in 0..my.len() { let c = qv[k].chan.unwrap(); op.push_str(&format!(" {} {} {} {} {} {} {} {} {} {}", c[0], c[1], c[2], c[3], c[4], csv(&qv[k].inflight), mv[k].mon_id, mv[k].mon[0], mv[k].mon[1], mv[k].mon[2])); }
-			let unblocked: Vec<u64> = qv.iter().map(|v| v.chan.unwrap()[1]).collect();
+			let open_q: Vec<usize> = (0..my.len()).filter(|k| qv[*k].chan.is_some()).collect();
+			let mut op = format!("reload {}", open_q.len());
+			for &k in &open_q { let c = qv[k].chan.unwrap(); op.push_str(&format!(" {} {} {} {} {} {} {} {} {} {}", c[0], c[1], c[2], c[3], c[4], csv(&qv[k].inflight), mv[k].mon_id, mv[k].mon[0], mv[k].mon[1], mv[k].mon[2])); }
+			let unblocked: Vec<u64> = qv.iter().map(|v| v.chan.map(|c| c[1]).unwrap_or(0)).collect();
 			let trace_mark = net.trace.len();
+			vh::RELOAD_RECONSTRUCT_FROM_MONITORS.store(w.rebuild, std::sync::atomic::Ordering::Relaxed);
 			let seen = match guarded(AssertUnwindSafe(|| observe_restart(&mut net, t, mgr, &mons, &unblocked))) { Ok(s) => s, Err(e) => Seen::Err(format!("PANIC {}", e)) };
-			let line = seen_line(&seen);
-			let lag = qv.iter().zip(mv.iter()).any(|(a, b)| a.chan.unwrap()[0] < b.mon_id);
+			vh::RELOAD_RECONSTRUCT_FROM_MONITORS.store(false, std::sync::atomic::Ordering::Relaxed);
+			let line = seen_line(&seen, &open_q);
+			let lag = qv.iter().zip(mv.iter()).any(|(a, b)| a.chan.map(|c| c[0] < b.mon_id).unwrap_or(false));
 			let has_replay = matches!(&seen, Seen::Ok(v) if v.iter().any(|x| !x.1.is_empty()));
-			let class = format!("{}:{}{}{}", if w.admissible { "admissible" } else { "stale-monitor" }, match &seen { Seen::Err(_) => "err", Seen::Ok(v) if v.iter().any(|x| x.0) => "closed", _ => "resumed" },
+			let class = format!("{}{}:{}{}{}", if w.admissible { "admissible" } else { "stale-monitor" }, if w.rebuild { "/rebuild" } else { "" }, match &seen { Seen::Err(_) => "err", Seen::Ok(v) if v.iter().any(|x| x.0) => "closed", _ => "resumed" },
 				if has_replay { "+replay" } else { "" }, if w.q < w.p && !lag { "+lagging-manager" } else { "" });
+			let pre_closed: Vec<bool> = qv.iter().map(|v| v.chan.is_none()).collect();
 			if !w.admissible && line.starts_with("panic") { late_panics += 1; rec.discarded += 1; std::mem::forget(net); continue; } // the read succeeded, a later step choked on the stale monitor
 			rec.case(&op, &line, &class, true);
 			if trace_on { eprintln!("  W {} {} => {}   ## {}", class, op, line, tag); }
